@@ -30,7 +30,7 @@ func ToGo(v *tref.Val, t *gen.Type, c GoCfg) interface{} {
 		return v.B
 	case tref.BYTE:
 		if c.IntAsInt {
-			return int(v.I)
+			return int(uint8(v.I)) // Node.Int() of a BYTE is unsigned (repo test TestCastInt8)
 		}
 		if c.ByteAsUint8 {
 			return uint8(v.I)
